@@ -197,6 +197,10 @@ pub struct SubCheck {
     pub name: &'static str,
     pub run_shard: Box<dyn Fn(&ShardArgs) -> ShardResult + Send + Sync>,
     pub replay: Box<dyn Fn(&Value) -> Result<CheckResult, String> + Send + Sync>,
+    /// second engine (coverage-guided fuzzing): decode a byte string into a case with the sub-check's
+    /// byte decoder (dec.rs) and run the check on it; None if the sub-check has no decoder
+    pub fuzz_one: Box<dyn Fn(&[u8]) -> Option<(Value, CheckResult)> + Send + Sync>,
+    pub has_decoder: bool,
 }
 
 fn hash_str(s: &str) -> u64 {
@@ -340,10 +344,32 @@ where
         let case: C = serde_json::from_value(v.clone()).map_err(|e| format!("cannot decode case: {}", e))?;
         Ok(run_check(&check, &case))
     };
+    // no byte decoder by default: the sub-check is then not reachable from the fuzz target
+    let fuzz_one = |_: &[u8]| -> Option<(Value, CheckResult)> { None };
     SubCheck {
         name,
         run_shard: Box::new(run_shard),
         replay: Box::new(replay),
+        fuzz_one: Box::new(fuzz_one),
+        has_decoder: false,
+    }
+}
+
+impl SubCheck {
+    /// Attach a byte decoder (the structure-aware generator of the coverage-guided fuzz target).
+    pub fn with_decoder<C, F>(mut self, decode: fn(&mut crate::dec::Dec) -> C, check: F) -> SubCheck
+    where
+        C: Debug + Clone + Serialize + DeserializeOwned + 'static,
+        F: Fn(&C) -> CheckResult + Send + Sync + Copy + 'static,
+    {
+        self.fuzz_one = Box::new(move |data: &[u8]| {
+            let mut d = crate::dec::Dec::new(data);
+            let case = decode(&mut d);
+            let r = run_check(&check, &case);
+            Some((serde_json::to_value(&case).unwrap_or(Value::Null), r))
+        });
+        self.has_decoder = true;
+        self
     }
 }
 
